@@ -2167,15 +2167,44 @@ void parse_table_row_into_cells(token * row) {
 /// Forget a block that was registered for later processing (header, table,
 /// definition) when it turns out not to be one after all
 static void mmd_engine_forget_block(mmd_engine * e, token * t) {
-	stack * stacks[3] = { e->header_stack, e->table_stack, e->definition_stack };
+	stack * s;
 
-	for (int s = 0; s < 3; ++s) {
-		for (size_t i = 0; i < stacks[s]->size; ++i) {
-			if (stacks[s]->element[i] == t) {
-				memmove(&stacks[s]->element[i], &stacks[s]->element[i + 1], (stacks[s]->size - i - 1) * sizeof(void *));
-				stacks[s]->size--;
-				i--;
-			}
+	// Only these blocks are registered by the parser
+	switch (t->type) {
+		case BLOCK_H1:
+		case BLOCK_H2:
+		case BLOCK_H3:
+		case BLOCK_H4:
+		case BLOCK_H5:
+		case BLOCK_H6:
+		case BLOCK_SETEXT_1:
+		case BLOCK_SETEXT_2:
+			s = e->header_stack;
+			break;
+
+		case BLOCK_TABLE:
+			s = e->table_stack;
+			break;
+
+		case BLOCK_DEF_ABBREVIATION:
+		case BLOCK_DEF_CITATION:
+		case BLOCK_DEF_FOOTNOTE:
+		case BLOCK_DEF_GLOSSARY:
+		case BLOCK_DEF_LINK:
+			s = e->definition_stack;
+			break;
+
+		default:
+			return;
+	}
+
+	// It was registered a moment ago, so look from the top of the stack
+	// (a scan of the whole stack for every block would be quadratic)
+	for (size_t i = s->size; i > 0; --i) {
+		if (s->element[i - 1] == t) {
+			memmove(&s->element[i - 1], &s->element[i], (s->size - i) * sizeof(void *));
+			s->size--;
+			break;
 		}
 	}
 }
